@@ -10,9 +10,23 @@ use std::collections::BTreeMap;
 pub enum Act {
     /// a transaction executing the staking contract; `hold`: packets it sends stay in flight
     /// (default: each is acknowledged successfully right after the transaction)
-    Exec { sender: String, msg: ExecuteMsg, funds: Vec<(String, u128)>, hold: bool },
+    Exec {
+        sender: String,
+        msg: ExecuteMsg,
+        #[serde(with = "funds_as_strings")]
+        funds: Vec<(String, u128)>,
+        hold: bool,
+    },
     /// ICS-20 transfer of the staked asset from the native chain with a wasm-hook memo
-    Hook { from: String, amount: u128, msg: ExecuteMsg, mint: u128, hold: bool },
+    Hook {
+        from: String,
+        #[serde(with = "u128_as_string")]
+        amount: u128,
+        msg: ExecuteMsg,
+        #[serde(with = "u128_as_string")]
+        mint: u128,
+        hold: bool,
+    },
     /// outcome of an in-flight packet: 0 ack ok, 1 ack error, 2 timeout
     Outcome { seq: u64, kind: u8 },
     /// a sudo call that does not belong to a packet of the simulator's channel (stray)
@@ -20,6 +34,57 @@ pub enum Act {
     Advance { to: u64 },
     IbcUp { up: bool },
     ReplyFault { mode: u8 },
+}
+
+/// serde_json has no 128-bit numbers: amounts in replay files are decimal strings
+mod u128_as_string {
+    use serde::{Deserialize, Deserializer, Serializer};
+    pub fn serialize<S: Serializer>(v: &u128, s: S) -> Result<S::Ok, S::Error> {
+        s.serialize_str(&v.to_string())
+    }
+    pub fn deserialize<'de, D: Deserializer<'de>>(d: D) -> Result<u128, D::Error> {
+        #[derive(Deserialize)]
+        #[serde(untagged)]
+        enum E {
+            S(String),
+            N(u64),
+        }
+        match E::deserialize(d)? {
+            E::S(s) => s.parse().map_err(serde::de::Error::custom),
+            E::N(n) => Ok(n as u128),
+        }
+    }
+}
+mod funds_as_strings {
+    use serde::ser::SerializeSeq;
+    use serde::{Deserialize, Deserializer, Serializer};
+    pub fn serialize<S: Serializer>(v: &[(String, u128)], s: S) -> Result<S::Ok, S::Error> {
+        let mut seq = s.serialize_seq(Some(v.len()))?;
+        for (d, a) in v {
+            seq.serialize_element(&(d, a.to_string()))?;
+        }
+        seq.end()
+    }
+    pub fn deserialize<'de, D: Deserializer<'de>>(d: D) -> Result<Vec<(String, u128)>, D::Error> {
+        #[derive(Deserialize)]
+        #[serde(untagged)]
+        enum E {
+            S(String),
+            N(u64),
+        }
+        let raw: Vec<(String, E)> = Vec::deserialize(d)?;
+        raw.into_iter()
+            .map(|(d, a)| {
+                Ok((
+                    d,
+                    match a {
+                        E::S(s) => s.parse().map_err(serde::de::Error::custom)?,
+                        E::N(n) => n as u128,
+                    },
+                ))
+            })
+            .collect()
+    }
 }
 
 pub fn act_label(a: &Act) -> String {
